@@ -41,6 +41,8 @@ pub struct MemHelper {
     pub files: HashMap<String, Arc<Vec<u8>>>,
     pub debug_candidates: Vec<String>,
     pub binary_candidates: Vec<String>,
+    pub debuglink_candidates: Vec<String>,
+    pub supplementary_candidates: Vec<String>,
     pub log: Arc<Mutex<Vec<String>>>,
 }
 
@@ -61,6 +63,12 @@ impl FileAndPathHelper for MemHelper {
     }
     fn get_candidate_paths_for_binary(&self, _info: &LibraryInfo) -> FileAndPathHelperResult<Vec<CandidatePathInfo<Loc>>> {
         Ok(self.binary_candidates.iter().map(|p| CandidatePathInfo::SingleFile(Loc(p.clone()))).collect())
+    }
+    fn get_candidate_paths_for_gnu_debug_link_dest(&self, _orig: &Loc, _name: &str) -> FileAndPathHelperResult<Vec<Loc>> {
+        Ok(self.debuglink_candidates.iter().map(|p| Loc(p.clone())).collect())
+    }
+    fn get_candidate_paths_for_supplementary_debug_file(&self, _orig: &Loc, _path: &str, _id: &samply_symbols::ElfBuildId) -> FileAndPathHelperResult<Vec<Loc>> {
+        Ok(self.supplementary_candidates.iter().map(|p| Loc(p.clone())).collect())
     }
     fn get_dyld_shared_cache_paths(&self, _arch: Option<&str>) -> FileAndPathHelperResult<Vec<Loc>> {
         Ok(vec![])
